@@ -131,12 +131,12 @@ func verifLinearizable(ops []*verifLinOp, done []bool, m verifLinModel, final ve
 }
 
 // Harness_C20_linearizable: threads of store operations run under every schedule at lock
-// granularity from an arbitrary initial store; the results and the final contents must be
+// granularity from an arbitrary initial store (empty, one entry, or one entry after a sequential past of puts and deletes); the results and the final contents must be
 // those of some linearization against the sequential map. Values are arbitrary strings.
 func Harness_C20_linearizable() {
 	ms := &MemoryStore{}
 	var init verifLinModel
-	switch verifChoose("initial", 3) {
+	switch verifChoose("initial", 4) {
 	case 0: // the zero-value store: no map yet
 	case 1:
 		ms.data = map[string]string{}
@@ -147,6 +147,23 @@ func Harness_C20_linearizable() {
 			return
 		}
 		init.present[0], init.val[0] = true, v
+	case 3:
+		// an aged store: one live entry, and a sequential past of `past` other keys that were put and
+		// deleted again (every length up to lin.past: behaviour that depends on how much has been
+		// deleted so far is reached from the history just before its threshold)
+		ms.data = map[string]string{}
+		v := verifNondetString("initial.a")
+		if ms.Put(verifLinKeys[0], &User{Name: v}) != nil {
+			return
+		}
+		init.present[0], init.val[0] = true, v
+		past := verifChoose("initial.past", verifParam("lin.past", 12)) + 1
+		for i := 0; i < past; i++ {
+			k := "/users/past" + strconv.Itoa(i)
+			if ms.Put(k, &User{Name: "past"}) != nil || ms.Delete(k) != nil {
+				return
+			}
+		}
 	}
 	nthreads := verifParam("lin.threads", 2)
 	var threads [][]*verifLinOp
